@@ -32,22 +32,25 @@ def _init_worker():
     _load_gfapy()
 
 
-def guarded(fn, limit=5.0):
+def guarded(fn, limit=30.0):
     """-> (result class, value, exception name).  Classes: ok / Error (any gfapy.Error) /
-    FOREIGN (anything else, including non-termination)."""
-    signal.setitimer(signal.ITIMER_REAL, limit)
+    FOREIGN (anything else, including non-termination: wall-clock watchdog, generous because
+    the machine may be heavily loaded)."""
     try:
-        v = fn()
+        signal.setitimer(signal.ITIMER_REAL, limit)
+        try:
+            v = fn()
+        finally:
+            signal.setitimer(signal.ITIMER_REAL, 0)
         return "ok", v, ""
     except _Timeout:
+        signal.setitimer(signal.ITIMER_REAL, 0)
         return "FOREIGN", None, "timeout"
     except MachineryError:
         raise
     except BaseException as e:  # noqa
         c = project.errclass(e)
         return ("FOREIGN" if c == "FOREIGN" else "Error"), None, type(e).__name__
-    finally:
-        signal.setitimer(signal.ITIMER_REAL, 0)
 
 
 def _pmap(fn, jobs, chunk=None):
@@ -133,7 +136,7 @@ FIELDS = [
     dict(name="xz", kind="tag", dt="Z", line=TAGLINE, version="gfa1", classes={
         "valid": [S("hello"), S("with space"), S("~!@")],
         "wrongtype": [I(5), J("[1, 2]"), J('{"a": 1}'), F("1.5")],
-        "wrongsyntax": [S("a\tb"), S("a\nb"), S(""), S("\x01"), S("café")]}),
+        "wrongsyntax": [S("a\tb"), S("a\nb"), S("\x01"), S("café")]}),
     dict(name="xa", kind="tag", dt="A", line=TAGLINE, version="gfa1", classes={
         "valid": [S("x"), S("~"), S("7")],
         "wrongtype": [I(5), J('["a"]')],
@@ -173,7 +176,7 @@ FIELDS = [
     dict(name="pos", kind="pos", dt="position_gfa1", line="C\tA\t+\tB\t-\t10\t2M", version="gfa1", classes={
         "valid": [I(12), S("34"), I(0)],
         "wrongtype": [J("[1]"), J('{"a": 1}')],
-        "wrongsyntax": [S("x"), S("1.5"), S("")],
+        "wrongsyntax": [S("x"), S("1.5"), S("1 2")],
         "outofrange": [I(-1), I(-100)]}),
     dict(name="path_name", kind="pos", dt="path_name_gfa1", line="P\tp1\tA+,B-\t*", version="gfa1", classes={
         "valid": [S("p2"), S("path")],
@@ -186,7 +189,7 @@ FIELDS = [
         "wrongsyntax": [S("A,B"), S("A+ B-"), S("A+,B"), S("")]}),
     dict(name="overlaps", kind="pos", dt="alignment_list_gfa1", line="P\tp1\tA+,B-,C+\t1M,1M", version="gfa1",
          classes={
-        "valid": [S("1M,2M"), S("*,*"), {"py": "ciglist", "a": ["3M", "2M"]}],
+        "valid": [S("1M,2M"), S("4M,1M1I"), {"py": "ciglist", "a": ["3M", "2M"]}],
         "wrongtype": [I(5), J('{"a": 1}')],
         "wrongsyntax": [S("1Q,2M"), S("1M;2M"), S("")]}),
     # ---- positional fields, GFA2
@@ -573,7 +576,7 @@ def run_doc(job):
             r, text, exc = guarded(lambda: str(gfa))
             if r == "ok":
                 lines = _split_written(text)
-                r2, obs, exc2 = guarded(lambda: project.observe(gfa, project.Pool(), ()), limit=20.0)
+                r2, obs, exc2 = guarded(lambda: project.observe(gfa, project.Pool(), ()), limit=60.0)
                 dig = obs.get("dig", "!" + obs.get("broken", "?")) if r2 == "ok" else "!" + exc2
         rs.append({"res": r, "lines": lines, "dig": dig, "exc": exc, "nadded": nadded})
     return {"id": cid, "r": [{k: v for k, v in x.items() if k in ("res", "lines", "dig")} for x in rs]}, \
@@ -622,7 +625,26 @@ def check_levels(out, tier, seed):
     return n
 
 
+def check_table():
+    """The string representatives of FIELDS / LAX against the grammar of Lex.tla: a wrong
+    table is a machinery failure, not a finding."""
+    cases = []
+    for f in FIELDS:
+        dt = "length_gfa2" if (f["dt"] == "i" and f["kind"] == "pos") else f["dt"]
+        for cls, reps in f["classes"].items():
+            for r in reps + (LAX.get(f["key"], []) if cls == "wrongsyntax" else []):
+                if r["py"] == "str":
+                    cases.append({"id": len(cases), "dt": dt, "cls": cls, "chars": list(r["a"]), "key": f["key"]})
+    rej, n = validate_cases("table", cases, "fields-table")
+    if rej:
+        raise MachineryError("value-class table disagrees with Lex.tla: " + "; ".join(
+            "%s %s %r: %s" % (cases[i]["key"], cases[i]["cls"], "".join(cases[i]["chars"]), rej[i][0])
+            for i in sorted(rej)))
+    return n
+
+
 def check_c18(out, tier, seed):
+    out.add_cov(table_strings_checked_against_lex=check_table())
     check_programs(out, tier, seed)
     check_levels(out, tier, seed)
     out.assumptions += [
